@@ -15,104 +15,104 @@ const techPath = "SSA dominance / path rules and affine-form dataflow over go/ss
 
 var properties = map[string]*propDef{
 	"C01": {
-		Rules:     []string{"APPLY", "TAB-NOTE", "TAB-DEGREE", "TAB-CHORDS", "TAB-ATTRS", "TAB-DEFAULTS", "EXTENDS", "PLAYLOOP", "NOTE", "OPT", "LOOKUP", "OVERRIDE", "WIRE"},
-		Technique: "affine-form dataflow on play.Key.Apply (pitch = 60 + tonic + degree + attribute / + base - 12) plus " + techTab,
+		Rules:       []string{"APPLY", "TAB-NOTE", "TAB-DEGREE", "TAB-CHORDS", "TAB-ATTRS", "TAB-DEFAULTS", "EXTENDS", "PLAYLOOP", "NOTE", "OPT", "LOOKUP", "OVERRIDE", "WIRE"},
+		Technique:   "affine-form dataflow on play.Key.Apply (pitch = 60 + tonic + degree + attribute / + base - 12) plus " + techTab,
 		Explanation: "the pitch arithmetic as an affine identity of Key.Apply (exactly one bass emission MiddleC+key+degree+base-12 and one tone emission MiddleC+key+degree+attribute per attribute, nothing else; every failed lookup is an error); every row of the letter, accidental, interval-size, chord and attribute tables against a first-principles specification, including the size algorithm for 1..64 x 7 qualities on the extracted model; MiddleC folds to 60 and the default bass to a unison; `extends` is inherited parent-first; the key in force is the one applied by update() before getKey() in the same iteration; flags override instance 0 only; one note-on per key.",
 		NotDecided:  "that the control flow of Degree.simpleSemitone implements the algorithm whose tables and tuples were extracted (the search loop itself is not proved); uint8 wrap-around outside the MIDI range (excluded by the property's premise); everything inside gomidi.",
 	},
 	"C02": {
-		Rules:     []string{"TICKS", "PENDING", "NOTE", "PLAYLOOP", "OPMAP", "TRACKADD", "TRACKCOUNT"},
-		Technique: techPath + ": rounding idiom, pending-delta typestate of every emitter, on/off loop structure",
+		Rules:       []string{"TICKS", "PENDING", "NOTE", "PLAYLOOP", "OPMAP", "TRACKADD", "TRACKCOUNT"},
+		Technique:   techPath + ": rounding idiom, pending-delta typestate of every emitter, on/off loop structure",
 		Explanation: "ticks = uint32(Round(quarterTicks x value)) by shape, quarterTicks and the header division both derived from the constructor's clock, the value is the sum over all duration fractions starting at 0; every emitting method consumes the pending delta exactly once before its first emission and gives later ops 0 or newTicks(value); Rest only accumulates; Close carries the pending rest; all note-ons of a chord precede all its note-offs, the first op of each phase carries the time; each op hands its own delta to gomidi; instances are visited in order.",
 		NotDecided:  "floating-point error of the sum of Num/Denom against exact rationals (needs values); absence of uint32 overflow (excluded below 2^28 by the quantifier); gomidi's delta encoding.",
 	},
 	"C03": {
-		Rules:     []string{"TAB-KEYSIG", "TAB-NOTE", "TAB-DEGREE", "TAB-SEARCH", "SCALEWIRE", "ERRFLOW", "ERRDROP", "WIRE", "NAMEDEGREE"},
-		Technique: techTab + " (narrow claim: preconditions only)",
+		Rules:       []string{"TAB-KEYSIG", "TAB-NOTE", "TAB-DEGREE", "TAB-SEARCH", "SCALEWIRE", "ERRFLOW", "ERRDROP", "WIRE", "NAMEDEGREE"},
+		Technique:   techTab + " (narrow claim: preconditions only)",
 		Explanation: "only the table preconditions of the conversion: in all 28 signature rows the tonic built by NewScale carries the key's own accidental; letter pitches, accidental offsets and interval sizes are right; both quality-search lists contain major/perfect, minor/diminished and augmented (what the seven diatonic notes and tritone basses need); Tendency folds to the documented result on all 16 input pairs; NewScale applies a row as sharp/flat/natural correctly.",
 		NotDecided:  "the search in ScaleNote.GetDegree and the letter distance in Name.GetDegree over the 12,936-case product: that is an enumeration over runtime values, nothing sound can be said about it statically with the tools in reach. Most signature-row corruptions do not affect this property at all (only the tonic's accidental matters); they are C13's business.",
 	},
 	"C04": {
-		Rules:     []string{"GEN-YACC", "TOKENS", "LEXMODE", "PARSEERR", "EOFPRED", "UNDERSCORE"},
-		Technique: "goyacc regeneration with AST comparison, token-set agreement between grammar and lexer, lexer-mode typestate on SSA, constant folding of loop predicates at EOF",
+		Rules:       []string{"GEN-YACC", "TOKENS", "LEXMODE", "PARSEERR", "EOFPRED", "UNDERSCORE"},
+		Technique:   "goyacc regeneration with AST comparison, token-set agreement between grammar and lexer, lexer-mode typestate on SSA, constant folding of loop predicates at EOF",
 		Explanation: "the shipped parser is AST-equal to what goyacc generates from chords.y and the grammar has 0 conflicts (so, trusting goyacc, it accepts exactly L(chords.y) over token strings); every terminal the rules use is produced by the lexer and nothing undeclared is; white space is discarded before every token, `;` skips to end of line, `{`/`}` and `_` switch the lexer modes and the modes are cleared again; a parser failure cannot be swallowed: parseText returns the lexer's error and every caller tests it before touching the tree (default reductions may store a result for a text that is then rejected); every lexer loop predicate is false at end of input, so a text cut inside a symbol, comment or metadata run terminates and is rejected; the grammar actions list each field from the right position.",
 		NotDecided:  "that the rune classes of scanSymbol / scanMetadata match an external description (the code is the documentation there); bounded-exhaustive acceptance against an independent recogniser.",
 	},
 	"C05": {
-		Rules:     []string{"CONVORDER", "CLASSIFY", "APPLY", "PLAYLOOP", "OPT", "TAB-KEYSIG", "SCALEWIRE", "TAB-NOTE", "WIRE", "NAMEDEGREE"},
-		Technique: techPath + ": call ordering in ASTConverter.Convert, linearity of Key.Apply in the tonic",
+		Rules:       []string{"CONVORDER", "CLASSIFY", "APPLY", "PLAYLOOP", "OPT", "TAB-KEYSIG", "SCALEWIRE", "TAB-NOTE", "WIRE", "NAMEDEGREE"},
+		Technique:   techPath + ": call ordering in ASTConverter.Convert, linearity of Key.Apply in the tonic",
 		Explanation: "a `{key=...}` change is applied (metadata -> instance -> scale switch) before the carrying chord is converted, for chords and for rests, with every error returned, and the new scale persists (pointer receiver); mixed notation is refused before anything is converted; the second sentence restricted to pitches: in Key.Apply the tonic has coefficient 1 in every emitted pitch and occurs nowhere else, so changing the key shifts every pitch by the tonic distance; the only other key-dependent output is the key-signature event.",
 		NotDecided:  "the first sentence as stated: equality of the two converters' outputs over all progressions is a relation between two computations over runtime values.",
 	},
 	"C06": {
-		Rules:     []string{"OWN", "TRACKADD", "PENDING", "SELECT", "TRACKCOUNT", "FLAGS", "WIRE"},
-		Technique: techPath + ": ownership of *TrackOp, read-before-mutate ordering, selector range",
+		Rules:       []string{"OWN", "TRACKADD", "PENDING", "SELECT", "TRACKCOUNT", "FLAGS", "WIRE"},
+		Technique:   techPath + ": ownership of *TrackOp, read-before-mutate ordering, selector range",
 		Explanation: "the premises of the invariant `track clock + pending = global clock`: a *TrackOp is never delivered twice (no Add inside a loop with an op created outside it); TrackSet.Add reads the op's delta before Track.Add rewrites it and adds it to every other track; the writer attaches the true elapsed time to every op, Close included; the selector sends metas to track 0 and the i-th note to i mod (N-1) + 1, N >= 1 enforced, selector and track set built from the same N; all N tracks are serialised; --track is a persistent flag visible on every write subcommand.",
 		NotDecided:  "the invariant itself as a statement about all histories (it would need an inductive proof over heap state); only the premises a hand proof uses are checked.",
 	},
 	"C07": {
-		Rules:     []string{"TAB-DYNAMICS", "TAB-DEFAULTS", "TAB-KEYSIG", "SCALEWIRE", "OPT", "OPMAP", "PENDING", "NARROW", "PLAYLOOP", "OVERRIDE", "FLAGS", "REJECT", "WIRE"},
-		Technique: techTab + "; " + techPath + " for the Opt typestate and the writer wiring",
+		Rules:       []string{"TAB-DYNAMICS", "TAB-DEFAULTS", "TAB-KEYSIG", "SCALEWIRE", "OPT", "OPMAP", "PENDING", "NARROW", "PLAYLOOP", "OVERRIDE", "FLAGS", "REJECT", "WIRE"},
+		Technique:   techTab + "; " + techPath + " for the Opt typestate and the writer wiring",
 		Explanation: "the dynamics table is strictly increasing within 1..127; defaults are 100 bpm, 4/4, C and a dynamic that has a velocity, each cell starting `updated` so that it is emitted at tick 0; Opt cells emit on first use and after every Update only; update() stores every non-nil setting of an instance (exhaustive over the struct's pointer fields); bpm/meter/key/meta cells are wired to Tempo / Meter(Num, Denom) / Key(tonic, !Minor, Flat+Sharp, Flat>0) / Text-Lyric-Marker by txt-lic-mrk with the text passed unmodified; each op calls the gomidi constructor the SMF spec names; control events consume the pending delta so they land at the instance start (also on rests, since update/emit precede the rest branch); flags override instance 0 only and every getter reads a flag of the right name and type on every command it runs for; meter values that do not fit a MIDI time signature are refused by validate.",
 		NotDecided:  "microseconds-per-quarter arithmetic and denominator encoding (gomidi); UTF-8 byte identity through yaml.v3.",
 	},
 	"C08": {
-		Rules:     []string{"NOTE", "PLAYLOOP", "PENDING", "SELECT", "OPMAP", "TRACKCOUNT", "TAB-DYNAMICS", "REJECT", "WIRE"},
-		Technique: techPath + ": on/off pairing, Close post-domination, meta ops only via MetaTrack",
+		Rules:       []string{"NOTE", "PLAYLOOP", "PENDING", "SELECT", "OPMAP", "TRACKCOUNT", "TAB-DYNAMICS", "REJECT", "WIRE"},
+		Technique:   techPath + ": on/off pairing, Close post-domination, meta ops only via MetaTrack",
 		Explanation: "crd's side of the SMF contract: every track is closed exactly once, after the last instance, and nothing is written after it; every note-on has a note-off of the same key and channel in the same call; tempo / time / key signature ops are created only through addMeta, MetaTrack maps to track 0 only, fixed ops never reach track 0 when N >= 2; N tracks are built and all are serialised with Add's error propagated; velocities <= 127.",
 		NotDecided:  "header bytes, chunk lengths, variable-length quantities and data-byte masking: gomidi, trusted.",
 	},
 	"C09": {
-		Rules:     []string{"EXIT", "EOFPRED", "NILOK", "VALIDATE", "REJECT", "MUST", "RECUR", "ERRDROP", "ERRFLOW", "FLAGS", "NARROW", "LOOKUP", "DEBUGOUT", "PLAYLOOP", "APPLY", "CONC", "SELECT", "SCALEWIRE", "CLASSIFY", "PARSEERR", "TAB-REGEX", "WIRE"},
-		Technique: "inventory and path rules over every site of a failure class: exit status, loop predicates at EOF, decode-without-validate, (nil,true) lookups, panicking wrappers on untrusted data, recursion cycles, dropped errors",
+		Rules:       []string{"EXIT", "EOFPRED", "NILOK", "VALIDATE", "REJECT", "MUST", "RECUR", "ERRDROP", "ERRFLOW", "FLAGS", "NARROW", "LOOKUP", "DEBUGOUT", "PLAYLOOP", "APPLY", "CONC", "SELECT", "SCALEWIRE", "CLASSIFY", "PARSEERR", "TAB-REGEX", "WIRE"},
+		Technique:   "inventory and path rules over every site of a failure class: exit status, loop predicates at EOF, decode-without-validate, (nil,true) lookups, panicking wrappers on untrusted data, recursion cycles, dropped errors",
 		Explanation: "seven failure classes, each for every site in the program: a failed Execute reaches os.Exit(non-zero); every NextWhile/DiscardWhile predicate folds to false at EOF; every decoder/constructor of a validated type validates before returning nil and each validator refuses the documented nonsense (0 durations, tempo 0, unknown dynamic, no durations); no lookup returns (nil, true); every function that can panic is in a reviewed inventory and every call site of a Must* wrapper is an initialiser, constant, or reviewed with a checked invariant; every call-graph cycle and condition-only loop has a reviewed termination measure (cyclic `extends` is rejected by validate, checked structurally); no error of a repo function or of yaml/io/os decoding is discarded; unknown chords, unknown keys, mixed notation and syntax errors are errors before anything is produced.",
 		NotDecided:  "absence of implicit run-time panics in general (index, nil, division); `promptly` as a quantitative statement; the behaviour of cobra / yaml.v3 on malformed flags or YAML.",
 	},
 	"C10": {
-		Rules:     []string{"SCHEMA", "CODEC", "TAB-NOTATION", "TAB-REGEX", "TAB-DYNAMICS", "TAB-DEGREE", "BASE10", "VALIDATE", "WIRE"},
-		Technique: "YAML schema comparison of producer and consumer types, Marshal/Unmarshal pairing, printer/parser table agreement",
+		Rules:       []string{"SCHEMA", "CODEC", "TAB-NOTATION", "TAB-REGEX", "TAB-DYNAMICS", "TAB-DEGREE", "BASE10", "VALIDATE", "WIRE"},
+		Technique:   "YAML schema comparison of producer and consumer types, Marshal/Unmarshal pairing, printer/parser table agreement",
 		Explanation: "what `text conv` and `write conv` hand to the YAML encoder has the key tree and scalar types `write` decodes (yaml.v3 silently ignores unknown keys, which is how this breaks); every scalar reachable from input.Instance has both directions, the decoders read the scalar text with the parser and the encoders print with String; printers and parsers share their tables (inverse maps built from the forward maps, notation marks longest-first, regex classes = printer alphabets, `/` separator numerator first, bare number = denominator 1, minor mark from capture 3); numerals are base 10.",
 		NotDecided:  "Parse(String(v)) == v for all values (a bijection over a value space); YAML quoting of arbitrary text (yaml.v3).",
 	},
 	"C11": {
-		Rules:     []string{"SPELL", "LEXMODE", "UNDERSCORE", "BASE10", "TOKENS", "WIRE"},
-		Technique: "lexer spelling table vs. consumer tables, type-dispatch check on every consumer of the accidental token",
+		Rules:       []string{"SPELL", "LEXMODE", "UNDERSCORE", "BASE10", "TOKENS", "WIRE"},
+		Technique:   "lexer spelling table vs. consumer tables, type-dispatch check on every consumer of the accidental token",
 		Explanation: "the second sentence for every consumer: each use of ChordDegree.Accidental goes through the canonicaliser that dispatches on the token type, whose outputs (# and b) are spellings every consumer table understands, so every spelling the lexer accepts is honoured identically; trivia is discarded before every token and comments skip to end of line; `symbol: simple_symbol` and `symbol: UNDERSCORE simple_symbol` build the same node; numerals are base 10 so leading zeros do not change the value.",
 		NotDecided:  "byte identity of two runs' output (a relation over pairs of inputs); white space inside `{...}` (the lexer keeps inner spaces of metadata by design).",
 	},
 	"C12": {
-		Rules:     []string{"MAPORDER", "CONC", "NONDET", "IOLAYER", "DEBUGOUT"},
-		Technique: "interprocedural order-taint analysis from map ranges to data sinks over go/ssa, plus inventories of goroutines, nondeterminism sources and I/O sites",
+		Rules:       []string{"MAPORDER", "CONC", "NONDET", "IOLAYER", "DEBUGOUT"},
+		Technique:   "interprocedural order-taint analysis from map ranges to data sinks over go/ssa, plus inventories of goroutines, nondeterminism sources and I/O sites",
 		Explanation: "for the enumerated sources of nondeterminism none reaches a data sink: map-iteration order (ranges over maps, maps.Keys/Values/All, functions summarised as returning map-ordered data) is tracked through values, stores, closures and range-over-func bodies to yaml.Marshal, writes and MIDI writer calls, with sorts and set construction as sanitisers and early exits justified by table invariants; the single goroutine is a single-producer FIFO closed on every path; no clock/random/environment/pid source and no %p; stdin/stdout/files only through the helpers, both input branches feed one callback, every data command writes through getOutput. Given the trusted base this is close to the whole property: a Go program without those sources is a function of its input.",
 		NotDecided:  "sources outside the list (unsafe, cgo, finalisers - none present); the operating system.",
 	},
 	"C13": {
-		Rules:     []string{"TAB-KEYSIG", "SCALEWIRE", "TAB-REGEX", "OPT", "WIRE"},
-		Technique: techTab + ": 28 signature rows against signatures derived from the step patterns",
+		Rules:       []string{"TAB-KEYSIG", "SCALEWIRE", "TAB-REGEX", "OPT", "WIRE"},
+		Technique:   techTab + ": 28 signature rows against signatures derived from the step patterns",
 		Explanation: "every row of the signature table equals the signature derived by walking the major / natural-minor step pattern from the tonic (not copied from a table); the 15 major and 13 minor keys exist; order of flats B E A D G C F by stacking fifths; flats take the first n, sharps the last n; the tonic-to-ring-index table; altered letters of every row equal the derived scale's; NewScale applies a row as stated and refuses keys without a row.",
 		NotDecided:  "NewScale's output as a computed value (it is the composition of checked tables with structurally checked wiring).",
 	},
 	"C14": {
-		Rules:     []string{"TAB-CIRCLE", "CIRCLEWIRE", "TAB-KEYSIG"},
-		Technique: techTab + ": ring laws and exhaustive chain check on the extracted model; wiring of find/index/Ring.At on SSA",
+		Rules:       []string{"TAB-CIRCLE", "CIRCLEWIRE", "TAB-KEYSIG"},
+		Technique:   techTab + ": ring laws and exhaustive chain check on the extracted model; wiring of find/index/Ring.At on SSA",
 		Explanation: "both rings have 12 slots, each slot's spellings are enharmonic, each step is a fifth up, the rings are aligned as relatives, the slots partition the supported keys (so results list every spelling); the four (other-ring, delta) pairs are (no,+1) (no,-1) (yes,0) (yes,-3/+3); on the extracted model every conversion of every key satisfies its definition and all 152,880 chains of length <= 6 satisfy d.s=id, r.r=p.p=id, d^12=id; the code conforms to the model: index in the key's own ring, slot index+delta in the requested ring, modulo wrap both ways, member threaded through the steps in order; CLI letters p r d s select the right conversions.",
 		NotDecided:  "nothing of substance beyond `code = model` being a structural, not a semantic, equivalence.",
 	},
 	"C15": {
-		Rules:     []string{"TAB-DEGREE", "TAB-NOTATION", "TAB-NOTE", "ADDDEGREE", "RECUR", "WIRE"},
-		Technique: techTab + ": 14-row size table, adjustment tuples, octave constants, model agreement for 1..64 x 7",
+		Rules:       []string{"TAB-DEGREE", "TAB-NOTATION", "TAB-NOTE", "ADDDEGREE", "RECUR", "WIRE"},
+		Technique:   techTab + ": 14-row size table, adjustment tuples, octave constants, model agreement for 1..64 x 7",
 		Explanation: "the size table row by row, the four quality-adjustment tuples, the octave constants (7 numbers, 12 semitones), and agreement of the extracted tables + documented algorithm with the specification on size and validity for numbers 1..64 x 7 qualities; notation marks and the parser's candidate list (equal images, longest first); AddDegree adds root and interval, splits with floor semantics on 12 and tries natural, then the requested accidental, then the other; compound intervals are computed without unbounded recursion.",
 		NotDecided:  "ParseDegree's use of strings.Trim (it accepts some non-canonical spellings such as `3b`; the property only needs printed notation to read back); findNameBySemitone's search as a computation.",
 	},
 	"C16": {
-		Rules:     []string{"TAB-CHORDS", "TAB-ATTRS", "BUILDER", "VALIDATE", "RECUR", "EXTENDS", "WIRE"},
-		Technique: techTab + ": the two embedded dictionaries are constants and are decided completely",
+		Rules:       []string{"TAB-CHORDS", "TAB-ATTRS", "BUILDER", "VALIDATE", "RECUR", "EXTENDS", "WIRE"},
+		Technique:   techTab + ": the two embedded dictionaries are constants and are decided completely",
 		Explanation: "the data clauses completely: every built-in symbol resolves, parent first, through the checker's own resolver and notation reader to the stated interval set; aliases; every attribute name denotes the interval its English name says; attribute.yml equals the independent generator's list for 1..19; chords are indexed by name and by display; built-ins are loaded before user files; every decoded entry is validated, references are validated by NewMap (the only constructor of Map), cyclic extends is rejected by a visited-set walk; inheritance is parent-first and recursive.",
 		NotDecided:  "that GenerateAttributes computes the list (its tables and loop bounds are checked and the file is compared with an independent generator, the function itself is not evaluated).",
 	},
 	"C17": {
-		Rules:     []string{"TAB-DIATONIC", "TAB-LEXNAMES", "TAB-CHORDS", "TAB-KEYSIG", "SCALEWIRE", "TAB-NOTE", "TAB-DEGREE", "APPLY", "WIRE"},
-		Technique: techTab + ": diatonic name tables against stacked thirds through chord.yml; printed names against the lexer's rune tables",
+		Rules:       []string{"TAB-DIATONIC", "TAB-LEXNAMES", "TAB-CHORDS", "TAB-KEYSIG", "SCALEWIRE", "TAB-NOTE", "TAB-DEGREE", "APPLY", "WIRE"},
+		Technique:   techTab + ": diatonic name tables against stacked thirds through chord.yml; printed names against the lexer's rune tables",
 		Explanation: "for each mode and degree the chord named in the table, resolved through chord.yml, has exactly the pitch set of thirds stacked on that degree of the derived scale (right qualities, only scale tones, for all 28 keys because the specification is transposition invariant and TAB-KEYSIG ties each key to its derived scale); names are paired with scale notes by index; every printed chord lexes back as SYLLABLE [accidental] SYMBOL, with `_` exactly where a digit would otherwise lex as NUMBER.",
 		NotDecided:  "the end-to-end pipe `text conv | write` as an execution.",
 	},
